@@ -55,6 +55,9 @@ type PendSnap struct {
 	KeyUsable                   bool
 }
 
+// evalInvariants: -invariants 1 evaluates every invariant registered with x/crisis after every block (exploration only: K3)
+var evalInvariants bool
+
 type Snapshot struct {
 	Height     int64
 	Now        int64 // block time, seconds since genesis
@@ -81,7 +84,7 @@ type Snapshot struct {
 	Seq0       map[int]uint64 // sequence numbers right after genesis (gentx signers start at 1)
 	Dels       map[int]string // self-delegation shares by validator id
 	Foreign    []string       // delegations that are not a pool validator's self-delegation
-	ModuleInv  string // x/staking module-account invariant ("" = holds)
+	Invariants []string // broken x/crisis invariants (route: message); only with -invariants 1 (observation K3, DESIGN.md §8)
 }
 
 func decScaled(d sdkmath.LegacyDec) string {
@@ -257,6 +260,27 @@ func (c *Chain) Snap() *Snapshot {
 	}
 	for _, id := range []int{0, 1, 2, 3, 4, 5, 6, 7, adminID, user1ID} {
 		_, s.Seqs[id] = c.accountNumSeq(id)
+	}
+	if evalInvariants {
+		// every invariant the modules registered with x/crisis (what a node started with --inv-check-period asserts in EndBlock)
+		for _, r := range app.CrisisKeeper.Routes() {
+			var msg string
+			var broken bool
+			func() {
+				defer func() {
+					if rec := recover(); rec != nil {
+						msg, broken = fmt.Sprint("panic: ", rec), true
+					}
+				}()
+				msg, broken = r.Invar(ctx)
+			}()
+			if broken {
+				if len(msg) > 300 {
+					msg = msg[:300]
+				}
+				s.Invariants = append(s.Invariants, r.FullRoute()+": "+strings.ReplaceAll(msg, "\n", " "))
+			}
+		}
 	}
 	return s
 }
